@@ -93,7 +93,12 @@ def main():
         coq_build(["Model/LiveCases.vo", "Model/SimCases.vo"])
     chk = [livecheck.c10]
     n = 1500 if thorough else 300
-    livegen.run_live_family(ck, "live_histories_unlimited", [livegen.gen_script(rng, {"restart": True, "max_len": 30, "p_trade": 0.5}) for _ in range(n)], chk, PID)
+    # directed: a completed trade re-used for an async order that completes through the stream before the response to its placement (F-C10-3)
+    ok = livegen.CLEAN
+    reuse = {"strategies": 1, "steps": [["book", "OPEN"], ["place", 0, 101, "BACK", 200, 500, None, False], ["deliver", 0, ok], ["xfill", 0, 2], ["stream", "full"],
+                                        ["place", 0, 101, "BACK", 200, 400, 0, True], ["call", 0, ok], ["stream", "full"], ["xfill", 0, 2], ["stream", "full"], ["respond", 0],
+                                        ["drain", [ok]], ["stream", "full"], ["stream", "full"]]}
+    livegen.run_live_family(ck, "live_histories_unlimited", [reuse] + [livegen.gen_script(rng, {"restart": True, "max_len": 30, "p_trade": 0.5}) for _ in range(n)], chk, PID)
     livegen.run_live_family(ck, "live_histories_limits_and_cooldowns", [livegen.gen_script(rng, {"restart": True, "max_len": 34, "p_trade": 0.5, "limits": True}) for _ in range(n)], chk, PID)
     scs = [simgen.gen_scenario(rng, {"kinds": ["L"] * 8 + ["LOC", "MOC"], "p_manage": 0.75, "p_susp": 0.3, "p_inplay": 0.2, "p_remove": 0.08, "p_fok": 0.15, "nstrats": [1, 2]}) for _ in range(800 if thorough else 200)]
     simcheck.run_family(ck, "simulation_histories", scs, propcheck.c10, "C10", "sim")
